@@ -147,6 +147,53 @@ def lean_spec(sd):
             "],\n  topNode := %s }" % lean_opt_str(sd["topNode"]))
 
 
+def lean_ref(name, table):
+    """`None` = not set, a name the schema lacks = `some none`"""
+    if name is None:
+        return "none"
+    return "some (some %d)" % table[name] if name in table else "some none"
+
+
+def lean_opt_attrs(attrs):
+    from .codec import jval
+    if attrs is None:
+        return "none"
+    return "some [" + ", ".join("(%s, %s)" % (lean_str(k), lean_str(jval(v))) for k, v in attrs.items()) + "]"
+
+
+def lean_ws(pw):
+    return {None: ".unset", False: ".off", True: ".on", "full": ".full"}[pw]
+
+
+def lean_parser(info, ident):
+    """`DOMParser.from_schema(schema)` as a `PM.DomWalk.Parser` literal (the encoding of harness/props/c19.py: rules),
+    or None when a rule has a `clear_mark` predicate (a Python closure: not data)"""
+    from prosemirror.model.from_dom import DOMParser
+    parser = DOMParser.from_schema(info.schema)
+    if any(r.clear_mark is not None for r in parser._styles):
+        return None
+    tags = []
+    for r in parser._tags:
+        tags.append("    { context := %s.toList, node := %s, mark := %s, attrs := %s, ignore := %s, skip := %s,\n"
+                    "      closeParent := %s, consuming := %s, preserveWs := %s, listTag := %s }" % (
+                        lean_str(r.context or ""), lean_ref(r.node, info.nid), lean_ref(r.mark, info.mid),
+                        "none" if r.get_attrs is not None else lean_opt_attrs(r.attrs), lean_bool(r.ignore), lean_bool(r.skip),
+                        lean_bool(r.close_parent), lean_bool(r.consuming is not False), lean_ws(r.preserve_whitespace),
+                        lean_bool(re.match(r"^(ul|ol)\b", r.tag) is not None)))
+    styles = []
+    for r in parser._styles:
+        styles.append("    { style := %s.toList, context := %s.toList, mark := %s, attrs := %s, ignore := %s,\n"
+                      "      clearMark := none, consuming := %s }" % (
+                          lean_str(r.style), lean_str(r.context or ""), lean_ref(r.mark, info.mid),
+                          "none" if r.get_attrs is not None else lean_opt_attrs(r.attrs), lean_bool(r.ignore),
+                          lean_bool(r.consuming is not False)))
+    groups = "[" + ", ".join("[" + ", ".join(lean_str(g) for g in info.schema.nodes[n].groups) + "]" for n in info.node_names) + "]"
+    ws = "[" + ", ".join(lean_bool(info.schema.nodes[n].whitespace == "pre") for n in info.node_names) + "]"
+    return ("{ S := s%s,\n  G := fun t => (%s : List (List String)).getD t [],\n  wsPre := fun t => (%s : List Bool).getD t false,\n"
+            "  tags := [%s],\n  styles := [%s] }" % (ident, groups, ws, ("\n" + ",\n".join(tags)) if tags else "",
+                                                     ("\n" + ",\n".join(styles)) if styles else ""))
+
+
 def collect():
     """[(schema name, Lean identifier, in_family, spec dump, compiled dump)] — built by the real constructor *now*:
     the spec of each family schema is compiled afresh with `Schema(spec)` (not the object the harness built earlier)"""
@@ -167,7 +214,11 @@ def collect():
             spec = info.schema.spec
             fresh = Schema(copy.deepcopy(spec))
             items.append((info.name, ident, fam, spec_dump(spec), SchemaInfo(fresh, info.name).dump()))
+            PARSERS[info.name] = lean_parser(SchemaInfo(fresh, info.name), ident) if fam else None
     return items
+
+
+PARSERS = {}   # schema name → `DOMParser.from_schema` of the freshly built schema as a Lean literal (family only)
 
 
 HEADER = "/- GENERATED on every run by harness/translate_schemas.py from the schemas the running library compiled. Do not edit. -/\n"
@@ -225,6 +276,23 @@ def render(items):
         files["SchemaBuilds/%s.lean" % ident] = "\n".join(lb) + "\n"
 
     fam_items = [it for it in items if it[2]]
+    par_items = [it for it in fam_items if PARSERS.get(it[0])]
+    lp = [HEADER.rstrip("\n"), "import Gen.SchemaFacts", "import PM.DomWalk", "namespace PM.Gen.Parsers",
+          "open PM PM.FromDom PM.DomWalk PM.Gen.Schemas", ""]
+    for it in par_items:
+        lp += ["/-- `DOMParser.from_schema` of schema `%s`: the rules of the `parseDOM` specs, in the parser's order -/" % it[0],
+               "def p%s : Parser :=\n  %s" % (it[1], PARSERS[it[0]].replace("\n", "\n  ")), "",
+               "theorem %s_rulesOk : p%s.rulesOk = true := by decide +kernel" % (lname(it[1]), it[1]), ""]
+    lp += ["end PM.Gen.Parsers", "", "namespace PM.Gen", "open PM PM.DomWalk PM.Gen.Schemas PM.Gen.Parsers", "",
+           "/-- the parsers `DOMParser.from_schema(S)` of the family schemas -/",
+           "def familyParsers : List Parser := [%s]" % ", ".join("p" + it[1] for it in par_items), "",
+           "theorem family_rulesOk : ∀ P ∈ familyParsers, P.rulesOk = true ∧ P.S ∈ familySchemas := by",
+           "  intro P hP",
+           "  simp only [familyParsers, List.mem_cons, List.not_mem_nil, or_false] at hP",
+           "  rcases hP with " + " | ".join(["rfl"] * len(par_items))]
+    lp += ["  · exact ⟨Parsers.%s_rulesOk, by simp [familySchemas, Parsers.p%s]⟩" % (lname(it[1]), it[1]) for it in par_items]
+    lp += ["", "end PM.Gen"]
+    files["Parsers.lean"] = "\n".join(lp) + "\n"
     lf = [HEADER.rstrip("\n")] + ["import Gen.SchemaFacts.%s" % it[1] for it in items] + [
         "namespace PM.Gen", "open PM PM.Gen.Schemas", "",
         "/-- the bundled basic and list schemas and the hand-written strict, isolating and table-like variants",
@@ -303,23 +371,25 @@ def regenerate():
     return items, write(render(items))
 
 
-def lid(ident):
+def lname(ident):
     return ident[0].lower() + ident[1:]
 
 
-def gen_theorems(items, builds):
+def gen_theorems(items, builds, parsers=False):
     """fully qualified names of the generated theorems a check audits"""
     names = []
     for name, ident, fam, sd, dump in items:
         for f, _ in GUARDS + EXTRA_GUARDS:
-            names.append("PM.Gen.SchemaFacts.%s_%s" % (lid(ident), f))
+            names.append("PM.Gen.SchemaFacts.%s_%s" % (lname(ident), f))
         if not any(f in EXPECT_FALSE.get(name, set()) for f, _ in GUARDS):
-            names.append("PM.Gen.SchemaFacts.%s_guards" % lid(ident))
+            names.append("PM.Gen.SchemaFacts.%s_guards" % lname(ident))
     names += ["PM.Gen.family_facts", "PM.Gen.domFamily_sub", "PM.Gen.domFamily_textStable"]
+    if parsers:
+        names += ["PM.Gen.Parsers.%s_rulesOk" % lname(it[1]) for it in items if PARSERS.get(it[0])] + ["PM.Gen.family_rulesOk"]
     if builds:
         for name, ident, fam, sd, dump in items:
-            names.append("PM.Gen.SchemaBuilds.%s_compiles" % lid(ident))
-            names.append("PM.Gen.SchemaBuilds.%s_builds" % lid(ident))
+            names.append("PM.Gen.SchemaBuilds.%s_compiles" % lname(ident))
+            names.append("PM.Gen.SchemaBuilds.%s_builds" % lname(ident))
         names += ["PM.Gen.family_builds", "PM.Gen.family_compiles"]
     return names
 
